@@ -38,6 +38,15 @@ STRATA = {
     "outliers": (800, 40000),
     "homologs": (400, 20000),
 }
+# functions that must leave their arguments untouched (vf.core.PurityMonitor; '!' = the object itself is watched too)
+PURE = [
+    "biotite.structure.superimpose:superimpose",
+    "biotite.structure.superimpose:superimpose_without_outliers",
+    "biotite.structure.superimpose:superimpose_homologs",
+    "biotite.structure.superimpose:AffineTransformation.apply!",
+    "biotite.structure.superimpose:AffineTransformation.as_matrix!",
+    "biotite.structure.compare:rmsd",
+]
 REQUIRED_ORACLES = [
     "rotation_orthonormal", "rotation_proper", "rmsd_optimal", "rmsd_not_improvable", "rigid_copy_rmsd_zero",
     "apply_equals_fitted", "matrix_form", "transformation_reproduces_fitted", "stack_model_wise", "mismatch_rejected",
